@@ -135,54 +135,7 @@ func iteratorWriteBackRule(r *Run, rule string, names map[string]bool) {
 			fresh := lp != nil && elem.Pos() > lp.Pos() && elem.Pos() < lp.End()
 			r.check(fresh, rule, "iterator-fresh-element|"+v.ID(), v.pos(cbCall), "each element is decoded into a fresh value", v.ID()+" decodes every record into one variable declared outside the loop: zero-valued fields of a record keep the previous record's values (and are written back)")
 		}
-		// every stored element reaches the callback: before it, the loop is left only with an error, and an
-		// element is skipped only by a filter over the helper's parameters and the element itself
-		if lp := v.innermostLoop(cbCall); lp != nil {
-			var early []string
-			ast.Inspect(lp, func(n ast.Node) bool {
-				if _, isLit := n.(*ast.FuncLit); isLit {
-					return false
-				}
-				if n == nil || n.Pos() >= cbCall.Pos() {
-					return true
-				}
-				switch x := n.(type) {
-				case *ast.ReturnStmt:
-					if !returnsErr(v, x) {
-						early = append(early, "return without an error at "+v.pos(x))
-					}
-				case *ast.BranchStmt:
-					if v.innermostLoop(x) != lp {
-						return true
-					}
-					if x.Tok.String() != "continue" {
-						early = append(early, x.Tok.String()+" at "+v.pos(x))
-						return true
-					}
-					for _, f := range v.factsAt(x, false) {
-						if f.LoopCond || f.At == nil || f.At.Pos() < lp.Pos() || f.At.Pos() > lp.End() {
-							continue
-						}
-						ast.Inspect(f.Atom, func(m ast.Node) bool {
-							id, isID := m.(*ast.Ident)
-							if !isID {
-								return true
-							}
-							o, isVar := v.Info.Uses[id].(*types.Var)
-							if !isVar || o.IsField() || o.Pkg() == nil || isParamObj(v, o) {
-								return true
-							}
-							if o.Pos() < lp.Pos() || o.Pos() > lp.End() {
-								early = append(early, "continue at "+v.pos(x)+" depends on "+o.Name()+", which outlives the iteration")
-							}
-							return true
-						})
-					}
-				}
-				return true
-			})
-			r.check(len(early) == 0, rule, "iterator-visits-all|"+v.ID(), v.pos(lp), "every stored element that passes the caller's filter reaches the callback", v.ID()+" can leave or skip elements before the callback: "+strings.Join(early, "; "))
-		}
+		iteratorVisitsAll(r, rule, v, cbCall)
 		r.check(okCond && okVal && okKey, rule, key, v.pos(setCall), "a modified element is always written back (under its own key) when isUpdate is set and the callback succeeded", describeWB(v, okCond, okVal, okKey, extra))
 	}
 	if n == 0 {
@@ -323,4 +276,129 @@ func isParamObj(v *FnView, o types.Object) bool {
 		}
 	}
 	return false
+}
+
+// iteratorVisitsAll: every stored element reaches the callback -- before it, the loop is left only with an
+// error, and an element is skipped only by a filter over the helper's parameters and the element itself;
+// after it, the loop is left early only with an error or because the callback asked to stop.
+func iteratorVisitsAll(r *Run, rule string, v *FnView, cbCall *ast.CallExpr) {
+	lp := v.innermostLoop(cbCall)
+	if lp == nil {
+		r.bad(rule, "iterator-visits-all|"+v.ID(), v.pos(cbCall), "callback inside the iteration", "the callback of "+v.ID()+" is not called inside a loop")
+		return
+	}
+	// the callback's boolean result(s): `stop := fn(…)`, `isBreak, err := fn(…)`, or the call used as a condition
+	stopObjs := map[types.Object]bool{}
+	if as, ok := v.parent(cbCall).(*ast.AssignStmt); ok {
+		for _, l := range as.Lhs {
+			if o := v.objOf(l); o != nil {
+				if b, isB := o.Type().Underlying().(*types.Basic); isB && b.Kind() == types.Bool {
+					stopObjs[o] = true
+				}
+			}
+		}
+	}
+	askedToStop := func(n ast.Node) bool {
+		for _, f := range v.FactsAt(n, false) {
+			if !f.Truth {
+				continue
+			}
+			a := stripParens(f.Atom)
+			if a == ast.Expr(cbCall) || (v.objOf(a) != nil && stopObjs[v.objOf(a)]) {
+				return true
+			}
+		}
+		return false
+	}
+	var early []string
+	ast.Inspect(lp, func(n ast.Node) bool {
+		if _, isLit := n.(*ast.FuncLit); isLit {
+			return false
+		}
+		if n == nil {
+			return true
+		}
+		before := n.Pos() < cbCall.Pos()
+		switch x := n.(type) {
+		case *ast.ReturnStmt:
+			if !returnsErr(v, x) && !(!before && askedToStop(x)) {
+				early = append(early, "return without an error at "+v.pos(x))
+			}
+		case *ast.BranchStmt:
+			if v.innermostLoop(x) != lp {
+				return true
+			}
+			if x.Tok.String() != "continue" {
+				if before || !askedToStop(x) {
+					early = append(early, x.Tok.String()+" at "+v.pos(x)+" that the callback did not ask for")
+				}
+				return true
+			}
+			if !before {
+				return true
+			}
+			for _, f := range v.factsAt(x, false) {
+				if f.LoopCond || f.At == nil || f.At.Pos() < lp.Pos() || f.At.Pos() > lp.End() {
+					continue
+				}
+				ast.Inspect(f.Atom, func(m ast.Node) bool {
+					id, isID := m.(*ast.Ident)
+					if !isID {
+						return true
+					}
+					o, isVar := v.Info.Uses[id].(*types.Var)
+					if !isVar || o.IsField() || o.Pkg() == nil || isParamObj(v, o) {
+						return true
+					}
+					if o.Pos() < lp.Pos() || o.Pos() > lp.End() {
+						early = append(early, "continue at "+v.pos(x)+" depends on "+o.Name()+", which outlives the iteration")
+					}
+					return true
+				})
+			}
+		}
+		return true
+	})
+	r.check(len(early) == 0, rule, "iterator-visits-all|"+v.ID(), v.pos(lp), "every stored element that passes the caller's filter reaches the callback", v.ID()+" can leave or skip elements: "+strings.Join(early, "; "))
+}
+
+// iteratorVisitsAllRule applies iteratorVisitsAll to the named callback iterators (helpers without a
+// write-back flag), and checks that each element is decoded into a fresh value.
+func iteratorVisitsAllRule(r *Run, rule string, names map[string]bool) {
+	seen := map[string]bool{}
+	for _, v := range r.W.allViews() {
+		if !names[v.ID()] {
+			continue
+		}
+		var cbs []types.Object
+		for _, fl := range v.Decl.Type.Params.List {
+			for _, nm := range fl.Names {
+				if o := v.Info.ObjectOf(nm); o != nil {
+					if _, isFn := o.Type().Underlying().(*types.Signature); isFn {
+						cbs = append(cbs, o)
+					}
+				}
+			}
+		}
+		var cbCall *ast.CallExpr
+		for _, c := range allCalls(v.Decl.Body) {
+			for _, cb := range cbs {
+				if v.objOf(c.Fun) == cb {
+					cbCall = c
+				}
+			}
+		}
+		if cbCall == nil {
+			r.bad(rule, "iterator-visits-all|"+v.ID(), v.pos(v.Decl), "callback call", v.ID()+" does not call its callback")
+			continue
+		}
+		seen[v.ID()] = true
+		r.saw(v.ID())
+		iteratorVisitsAll(r, rule, v, cbCall)
+	}
+	for nm := range names {
+		if !seen[nm] {
+			r.bad(rule, "iterator-visits-all|"+nm, "-", "anchor", nm+" not found (moved or renamed)")
+		}
+	}
 }
